@@ -74,6 +74,7 @@ type Engine struct {
 	inferredUsed  map[string]bool
 	objInvUsed    map[string]*FuncContract // object-invariant preconditions assumed at call sites outside the declaring package
 	poolAllocs    map[*ssa.Function]bool
+	mutGlobals    map[*ssa.Global]bool
 	inferLoops    bool                      // Houdini-style loop invariant inference for integer loop counters
 	autoInv       map[string][]*autoInvCand // function -> candidate invariants
 	trialRound    int
